@@ -3,7 +3,7 @@ import oracles as O, solverutil as S
 
 RULE = ('seeded random instances, <= 3 students x <= 3 projects x <= 3 lecturers (2- and 3-agent, one- and two-sided, lower quotas, '
         'zero capacities, more ranks than students), with and without -pc; real Solver -bf vs. exhaustive optimum of every printed '
-        'statistic; non-trivial = at least two valid matchings')
+        'statistic; plus a corner family where the greediest matching is not of maximum size; non-trivial = at least two valid matchings')
 
 
 def cases(rng, tier):
@@ -12,6 +12,14 @@ def cases(rng, tier):
         na = rng.choice([2, 3]); two = rng.random() < 0.5
         I = O.gen_instance(rng, rng.randint(1, 3), rng.randint(1, 3), rng.randint(1, 3), na=na, twopl=two, zero=(t % 3 == 0), maxq=2, maxlen=3)
         yield 'bf_run', dict(instance=I, pc=bool(t % 2))
+        if t % 10 == 0:
+            # corner family: the greediest matching is NOT of maximum size (a one-entry list takes the first choice of a longer list in every
+            # maximum matching), so "most greedy over all valid matchings" and "over maximum-size matchings" differ
+            nS = 3; perm = rng.sample([1, 2, 3], 3)
+            rows = [[[perm[0], perm[1]], [0, 0]], [[perm[0]], [0]], [[perm[1], perm[2]], [0, 0]]]
+            order = rng.sample(range(3), 3); rows = [rows[i] for i in order]
+            J = dict(na=2, nS=nS, nP=3, nL=3, twopl=False, lect=[1, 2, 3], rows=rows, puq=[1, 1, 1], plq=[0, 0, 0], luq=[1, 1, 1], tgt=[1, 1, 1], llq=[0, 0, 0], llists=[[[], []] for _ in range(3)])
+            yield 'bf_run', dict(instance=J, pc=bool(t % 4))
 
 
 def nontrivial(kind, inp):
